@@ -44,6 +44,24 @@ func drawEpoch(r sim.Src) time.Time {
 	return time.Unix(base, int64(r.Intn("epochns", 1000))*1_000_003).UTC()
 }
 
+// drawPhaseSkew: whole phases of a round reach the chosen nodes in a drawn order (e.g. every commit
+// before the last pre-commit, the responses last), the other links being fast.
+func drawPhaseSkew(r sim.Src, ids int) map[int][4]int {
+	ps := map[int][4]int{}
+	mask := 1 + r.Intn("skewmask", (1<<uint(min(ids, 8)))-1)
+	for i := 0; i < ids; i++ {
+		if mask&(1<<uint(i%8)) != 0 {
+			perm := [4]int{0, 1, 2, 3}
+			for k := 3; k > 0; k-- {
+				j := r.Intn("skewperm", k+1)
+				perm[k], perm[j] = perm[j], perm[k]
+			}
+			ps[i] = perm
+		}
+	}
+	return ps
+}
+
 // RunTimed draws a configuration of the requested family and runs it.
 func RunTimedWorld(r sim.Src, mons []*sim.Mon, keepLog bool, sh TimedShape) *sim.World {
 	maxN := sh.MaxN
@@ -112,20 +130,7 @@ func RunTimedWorld(r sim.Src, mons []*sim.Mon, keepLog bool, sh TimedShape) *sim
 			o.SlowLag = tpb * 11 / 10
 		}
 		if r.Intn("phaseskew", 3) == 0 {
-			// whole phases of a round reach the chosen nodes in a drawn order (e.g. every commit
-			// before the last pre-commit, the responses last), the other links being fast
-			phaseSkew = map[int][4]int{}
-			mask := 1 + r.Intn("skewmask", (1<<uint(min(ids, 8)))-1)
-			for i := 0; i < ids; i++ {
-				if mask&(1<<uint(i%8)) != 0 {
-					perm := [4]int{0, 1, 2, 3}
-					for k := 3; k > 0; k-- {
-						j := r.Intn("skewperm", k+1)
-						perm[k], perm[j] = perm[j], perm[k]
-					}
-					phaseSkew[i] = perm
-				}
-			}
+			phaseSkew = drawPhaseSkew(r, ids)
 		}
 		o.Heights = 3 + r.Intn("heights", 4)
 		o.DupPct = []int{0, 10, 40}[r.Intn("dup", 3)]
@@ -179,6 +184,9 @@ func RunTimedWorld(r sim.Src, mons []*sim.Mon, keepLog bool, sh TimedShape) *sim
 			o.Plan = append(o.Plan, it)
 		}
 	case "c09", "c13":
+		if r.Intn("phaseskew", 4) == 0 {
+			phaseSkew = drawPhaseSkew(r, ids) // delivery orders inside the synchronous periods
+		}
 		o.Heights = 2 + r.Intn("heights", 2)
 		o.SyncPeriod = tpb * time.Duration(3+r.Intn("syncp", 28)) / 10
 		o.InitialTxs = r.Intn("inittx", 3)
